@@ -114,6 +114,40 @@ type c20Item struct {
 	kind  string // struct | map | intmap
 }
 
+// fields whose named types print themselves: the member is the value of that type, not a bare int / string / bool / float
+type c20Level int
+
+func (l c20Level) String() string { return []string{"low", "mid", "high"}[int(l)%3] }
+
+type c20Label string
+
+func (l c20Label) String() string { return "label<" + string(l) + ">" }
+
+type c20Flag bool
+
+func (f c20Flag) String() string {
+	if f {
+		return "ON"
+	}
+	return "OFF"
+}
+
+type c20Ratio float64
+
+func (r c20Ratio) String() string { return fmt.Sprintf("%.0f%%", float64(r)*100) }
+
+type Typed struct {
+	Level c20Level
+	Label c20Label
+	On    c20Flag
+	Ratio c20Ratio
+	Plain int
+}
+type EmbTyped struct {
+	Typed
+	Extra string
+}
+
 func c20Family() []c20Item {
 	a1 := A1{"A1.Name", 1101, "A1.hidden"}
 	a2 := A2{1202, "A2.Name", "A2.Extra"}
@@ -129,7 +163,11 @@ func c20Family() []c20Item {
 	em := EmbM{"EmbM.Z", M1{"embm1v"}}
 	var nilA1 *A1
 	sNames := []string{"Name", "Count", "Extra", "hidden", "Top", "Tag", "Lead", "Val", "PVal", "Num", "Other", "Z", "V", "Missing", "Pad2", "A1x"}
+	ty := Typed{Level: 2, Label: "gold", On: true, Ratio: 0.25, Plain: 7}
+	ety := EmbTyped{Typed{Level: 1, Label: "tin", On: false, Ratio: 0.5, Plain: 8}, "EmbTyped.Extra"}
+	tNames := []string{"Level", "Label", "On", "Ratio", "Plain", "Extra", "Missing"}
 	items := []c20Item{
+		{"Typed", ty, tNames, "struct"}, {"*Typed", &ty, tNames, "struct"}, {"EmbTyped", ety, tNames, "struct"}, {"*EmbTyped", &ety, tNames, "struct"},
 		{"A1", a1, sNames, "struct"}, {"*A1", &a1, sNames, "struct"}, {"A2", a2, sNames, "struct"}, {"*A2", &a2, sNames, "struct"}, {"A3", a3, sNames, "struct"},
 		{"Emb1", e1, sNames, "struct"}, {"*Emb1", &e1, sNames, "struct"}, {"Emb2", e2, sNames, "struct"}, {"*Emb2", &e2, sNames, "struct"}, {"Deep2", d2, sNames, "struct"}, {"*Deep2", &d2, sNames, "struct"},
 		{"Shadow", sh, sNames, "struct"}, {"PEmb", pe, sNames, "struct"}, {"*PEmb", &pe, sNames, "struct"}, {"PEmbNil", pn, sNames, "struct"}, {"*PEmbNil", &pn, sNames, "struct"},
